@@ -195,6 +195,20 @@ func RunPlan(pr *Profile, p *Plan, keep bool) *Outcome {
 		if pr.Nontrivial != nil {
 			out.Nontrivial = pr.Nontrivial(w)
 		}
+		if os.Getenv("VERIF_DEBUG") == "execs" {
+			for _, x := range c.Execs {
+				fmt.Fprintf(os.Stderr, "EXEC seq=%d step=%d arr=%d nonce=%d %s conn=%d call=%d multi=%d reg=%d pos=%d region=%q row=%q err=%s applied=%v respEnd=%d\n",
+					x.Seq, x.Step, x.ArrStep, x.Nonce, x.Kind, x.Conn, x.CallID, x.Multi, x.RegPos, x.MultiPos, x.Region, x.Row, x.Err, x.Applied, x.RespEnd)
+			}
+			for _, t := range w.Recs {
+				for _, r := range t {
+					fmt.Fprintf(os.Stderr, "OP task=%d idx=%d %s invoke=%d return=%d done=%v ok=%v err=%s\n", r.Task, r.Idx, r.Op.Kind, r.Invoke, r.Return, r.Done, r.AllOK, r.Slot.ErrStr)
+					for i, s := range r.Slots {
+						fmt.Fprintf(os.Stderr, "   slot %d nonce=%d %s hasMsg=%v err=%s\n", i, s.Nonce, s.Kind, s.HasMsg, firstLine(s.ErrStr))
+					}
+				}
+			}
+		}
 		if os.Getenv("VERIF_DEBUG") != "" {
 			for _, g := range simrt.Live() {
 				fmt.Fprintf(os.Stderr, "LIVE %v parked=%v\n", g, g.Parked())
